@@ -322,7 +322,9 @@ func readStream(x *explore.Ctx, id string, g *genStream, stream []byte, readerIs
 	} else if ch := chunkChoices[x.Choose(g.nchunk(), "chunking")]; ch > 0 {
 		nc.Chunk = netsim.ChunkFixed(ch)
 	}
+	eofWithLast := false
 	if x.Choose(2, "eof-with-last-bytes") == 1 {
+		eofWithLast = true
 		// the transport hands out the last bytes of the stream together with io.EOF (allowed by
 		// io.Reader): every message is complete, so every message must still be delivered
 		nc.LastWith = netsim.FailDataEOF
@@ -481,7 +483,9 @@ func readStream(x *explore.Ctx, id string, g *genStream, stream []byte, readerIs
 				break
 			}
 		}
-		x.Check(err != nil && err != io.EOF, key("join-end"), "JoinMessages reader ended without the connection's error (%v)", err)
+		// (when the transport reports io.EOF together with the last bytes of the last message, the
+		// stream ends exactly at a message boundary and the connection's error is that io.EOF)
+		x.Check(err != nil && (err != io.EOF || eofWithLast), key("join-end"), "JoinMessages reader ended without the connection's error (%v)", err)
 		var exp []byte
 		for _, m := range want {
 			exp = append(exp, m.Payload...)
